@@ -53,6 +53,15 @@ def run(tier, seed, replay=None):
             mtrans += r.generated
             cmds.append(r.cmd)
         # segmentations chosen by the model: the sizes of the Net steps of simulated behaviours, scaled
+        # the job pool of the file-oriented commands (CmdDump.Main / CmdRestore.Main: jobs in a channel, P workers, a WaitGroup): WorkerPool.tla
+        for wcfg in ("WorkerPool.cfg", "WorkerPool_b.cfg"):
+            rw = vlib.tlc(sc, "WorkerPool", wcfg, workers=4, timeout=600)
+            if rw.rc != 0:
+                raise Infra("WorkerPool model check failed on %s (rc=%s, %s)\n%s" % (wcfg, rw.rc, rw.violated, rw.out[-2000:]))
+            mstates += rw.distinct
+            mtrans += rw.generated
+        if not vlib.tlc(sc, "WorkerPool", "WorkerPool_dev.cfg", workers=4, timeout=600).violated:
+            raise Infra("WorkerPool.tla: counting a job off before it is worked on no longer violates MainAfterAll - the model is vacuous")
         rs, paths = vlib.sim_paths(sc, "Handoff", "Handoff.cfg", 60 if thorough else 20, 30, seed, fields={"wire"})
         model_frags = []
         for p in paths:
